@@ -51,8 +51,8 @@ def run(c):
     if r.violated:
         raise tlcmod.TlcError("Robust.tla: %s" % r.trace_text[:1000])
     # the two designs the model is sensitive to: a reply that must be delivered, and evict-then-push on a full queue
-    rs = c.tlc("Robust", "Robust_strict.cfg", workers=1, timeout=120, expect_ok=False)
-    re_ = c.tlc("Robust", "Robust_evict.cfg", workers=1, timeout=120, expect_ok=False)
+    rs = c.tlc("Robust", "Robust_strict.cfg", workers=1, timeout=600, expect_ok=False)
+    re_ = c.tlc("Robust", "Robust_evict.cfg", workers=1, timeout=600, expect_ok=False)
     c.extra["design_strict_reply_kills_actor"] = rs.invariant_violated == "TasksAlive"
     c.extra["design_evict_then_push_kills_handler"] = re_.invariant_violated == "NoHandlerDies"
     if not (c.extra["design_strict_reply_kills_actor"] and c.extra["design_evict_then_push_kills_handler"]):
@@ -254,7 +254,7 @@ def run(c):
         ksteps += [{"op": "notify_key_keeper"}, {"op": "sleep", "ms": 4}]
     ksteps += [{"op": "mark", "tag": "end:kknotify"}, {"op": "sleep", "ms": 300}, {"op": "mark", "tag": "after:kknotify"},
                {"op": "sleep", "ms": 200}]
-    kev, kd, _ = rig.run_rig({"steps": ksteps, "drain_ms": 100}, "c13_kk", timeout=120)
+    kev, kd, _ = rig.run_rig({"steps": ksteps, "drain_ms": 100}, "c13_kk", timeout=600)
     latched = any(e["e"] == "KeyState" and e.get("guid") for e in kev)
     if not latched:
         raise util.ToolError("C13 key-keeper scenario: the key was not latched")
@@ -284,7 +284,7 @@ def run(c):
               c12.plan("POST /secure-channel/key/*", 200, ""), {"op": "sleep", "ms": 600},
               c12.plan("GET /secure-channel/status", 200, c12.status_doc(c12.G[0])), {"op": "sleep", "ms": 300},
               {"op": "key_state", "tag": "after-outage"}, {"op": "mark", "tag": "end:kkoutage"}]
-    oev, od, _ = rig.run_rig({"steps": fsteps, "drain_ms": 100}, "c13_kkout", timeout=120)
+    oev, od, _ = rig.run_rig({"steps": fsteps, "drain_ms": 100}, "c13_kkout", timeout=600)
     failed_polls = sum(1 for e in oev if e["e"] == "HostRecv" and e["target"].startswith("/secure-channel/status"))
     opan = [{"location": e["location"], "message": e["message"][:160]} for e in oev if e["e"] == "Panic"]
     waited = next((e for e in oev if e["e"] == "HostRequests"), {})
